@@ -37,7 +37,7 @@ TECHNIQUE = "log capture through the real formatter + per-dispatch join with the
 LEVEL_TEXT = (
     "Exploration: generated programs with exceptions whose texts are empty, whitespace, multi-line, non-ASCII, 500/501, "
     "3 000, 100 000 and >1 MiB characters, cancels, partial consumption and response-cap overshoots are run over HTTP "
-    "(x cap {none,tiny,large} x compression {off,zstd} x access level {INFO,DEBUG}) and pipe/unix/tcp/shm; every "
+    "(x cap {none,tiny,large} x compression {off,zstd} x access level {INFO,DEBUG} x call-state cache {default, disabled}) and pipe/unix/tcp/shm; every "
     "dispatched call is joined with the access records captured through VgiAccessLogFormatter and judged for count, "
     "schema validity, status, stream_id sharing and full error_message. Held means no counterexample among the joined "
     "dispatches listed in the evidence."
